@@ -279,8 +279,7 @@ inline constexpr void Conversion<Unit::Pressure, Unit::Pressure::PoundPerSquareI
 }
 
 template <typename NumericType>
-inline const std::map<Unit::Pressure,
-                      std::function<void(NumericType* values, const std::size_t size)>>
+inline const ConversionTable<Unit::Pressure, NumericType>
     MapOfConversionsFromStandard<Unit::Pressure, NumericType>{
       {Unit::Pressure::Pascal,
        Conversions<Unit::Pressure, Unit::Pressure::Pascal>::FromStandard<NumericType>            },
@@ -301,8 +300,7 @@ inline const std::map<Unit::Pressure,
 };
 
 template <typename NumericType>
-inline const std::map<Unit::Pressure,
-                      std::function<void(NumericType* const values, const std::size_t size)>>
+inline const ConversionTable<Unit::Pressure, NumericType>
     MapOfConversionsToStandard<Unit::Pressure, NumericType>{
       {Unit::Pressure::Pascal,
        Conversions<Unit::Pressure, Unit::Pressure::Pascal>::ToStandard<NumericType>            },
